@@ -59,7 +59,8 @@ fn sequential_sweep(v: &Verdicts, rng: &mut Rng, thorough: bool) -> (u64, BTreeS
     for build in 0..3 {
         // how the key reaches its current version
         for extra_sets in [0usize, 1, 5] {
-            let offsets: Vec<i64> = vec![-1000, -2, -1, 0, 1, 2, 1000, 2147483646];
+            // -2000.. stand for the absolute versions -2, -5 and i32::MIN: below every version a key can have
+            let offsets: Vec<i64> = vec![-1000, -2, -1, 0, 1, 2, 1000, 2147483646, -2000, -2001, -2002];
             for off in offsets {
                 keyn += 1;
                 let k = format!("k{}", keyn);
@@ -82,8 +83,15 @@ fn sequential_sweep(v: &Verdicts, rng: &mut Rng, thorough: bool) -> (u64, BTreeS
                     }
                 }
                 let (val0, c) = get_safe(&mut s, &dbs, &k);
-                let sent: i64 = if off == 2147483646 { 2147483646 } else if off == -1000 { -1 } else { c as i64 + off };
-                if sent < -1 || sent > 2147483646 {
+                let sent: i64 = match off {
+                    2147483646 => 2147483646,
+                    -1000 => -1,
+                    -2000 => -2,
+                    -2001 => -5,
+                    -2002 => i32::MIN as i64,
+                    _ => c as i64 + off,
+                };
+                if (sent < -1 && off > -2000) || sent > 2147483646 {
                     continue;
                 }
                 let line = format!("set-safe {} {} w{}", k, sent, keyn);
@@ -93,10 +101,10 @@ fn sequential_sweep(v: &Verdicts, rng: &mut Rng, thorough: bool) -> (u64, BTreeS
                 let (val1, c1) = get_safe(&mut s, &dbs, &k);
                 n += 1;
                 let expect_accept = sent == -1 || sent >= c as i64;
-                let rel = if sent == -1 { "minus-one" } else if sent < c as i64 { "older" } else if sent == c as i64 { "equal" } else { "newer" };
+                let rel = if sent == -1 { "minus-one" } else if sent < -1 { "negative" } else if sent < c as i64 { "older" } else if sent == c as i64 { "equal" } else { "newer" };
                 classes.insert(format!("existing/{}/{}", rel, short(&r).split(' ').next().unwrap()));
                 let accepted = matches!(r, Response::Ok {});
-                let refused = matches!(r, Response::VersionError { .. });
+                let refused = matches!(r, Response::VersionError { .. }) || (sent < -1 && matches!(r, Response::Error { .. }));
                 let mut problem = None;
                 if expect_accept && !accepted {
                     problem = Some("refused-although-not-older");
